@@ -92,7 +92,7 @@ def main(argv=None):
                 return 3
             for i in range(len(c.cases)):
                 tasks.append((t, i, {'seed': seed, 'n_random': 300 if tier == 'quick' else 3000,
-                                     'only': c.only.get(prop), 'prop': prop,
+                                     'only': c.only.get(prop), 'prop': prop, 'crosscheck': 2 if tier == 'quick' else 25,
                                      'known': [f.get('obligation', '') for f in findings if f.get('property') == prop]}))
     lem = [(n, p, f) for (n, p, f) in lemmas if prop in p and a.only in n]
     standins = [(n, p, f) for (n, p, f) in api.STANDINS if prop in p and a.only in n]
@@ -106,10 +106,20 @@ def main(argv=None):
             ar = pool.map_async(run.run_case_task, tasks, chunksize=1)
             lr = pool.map_async(run_lemma_task, [(n, tier, seed) for (n, p, f) in lem], chunksize=1)
             sr = pool.map_async(run_standin_task, [(n, tier, seed) for (n, p, f) in standins], chunksize=1)
-            results = ar.get()
-            lemma_results = lr.get()
-            standin_results = sr.get()
+            # a worker that dies (solver crash) would make Pool wait forever: bound the wait
+            budget = 3000 if tier == 'quick' else 14000
+            try:
+                results = ar.get(timeout=budget)
+                lemma_results = lr.get(timeout=budget)
+                standin_results = sr.get(timeout=budget)
+            except mp.TimeoutError:
+                print('CHECKER-ERROR worker pool did not finish within %d s (a worker died or hung)' % budget)
+                pool.terminate()
+                return 3
 
+    if os.environ.get('PYVC_TIMING'):
+        for r in sorted(results, key=lambda r: -r.get('wall_s', 0))[:8]:
+            print('TIMING %.1fs %s / %s (paths %s)' % (r.get('wall_s', 0), r['target'], r['case'], r.get('paths')))
     # ------------------------------------------------------------------ aggregate
     obligations = []       # dicts: name,status,backend,secs
     violations = []        # (obname, replay dict)
@@ -317,6 +327,7 @@ def main(argv=None):
             'by_backend': by_backend,
             'solver_seconds': round(solver_s, 3),
             'cases': len(tasks),
+            'native_crosscheck_trials': sum(r.get('crosscheck_trials', 0) for r in results),
             'paths': sum(r.get('paths', 0) for r in results),
             'vcs': sum(o.get('vcs', 1) for o in obligations),
             'lemmas': sorted(set(lr_['name'] for lr_ in lemma_results)),
